@@ -6,13 +6,13 @@
     require-mode values and of the bundle block, JSON held by environment variables) are universally
     quantified, with their assumed behaviour ([oracles_ok], [bundle_ok]) as hypotheses.
 
-    Full-strength statement (REFUTED for the code as it is, see the three [_refuted] theorems):
+    Full-strength statement (REFUTED for the code as it is, see the [_refuted] theorems):
       every accepted rule reads back from its written form as an equivalent rule, and rules written
       identically are equivalent.
     Proved instead: the same under the decidable carve-out [writes_all] = "the configured rule keeps none of
-    the properties listed in C19_carve_out_is_exactly" (convert_require.current/target,
-    remove_attribute.match, remove_comments.except: accepted by `configure`, never written by
-    `serialize_to_properties`). *)
+    the properties listed in C19_carve_out_is_exactly" (convert_require.current/target: required by `configure`,
+    never written by `serialize_to_properties`; remove_comments.except and remove_attribute.match left the
+    list with darklua commit 1875b55). *)
 From Coq Require Import List Bool String.
 From DL Require Import Model.Config Model.ConfigRules Proof.ConfigFacts Proof.ConfigTop Proof.ConfigRulesFacts.
 Import ListNotations.
@@ -129,12 +129,12 @@ Check C19_config_injective :
 
 Theorem C19_carve_out_is_exactly :
   dropped_properties rule_specs =
-  [("convert_require", "current"); ("convert_require", "target"); ("remove_attribute", "match"); ("remove_comments", "except")].
+  [("convert_require", "current"); ("convert_require", "target")].
 Proof. exact (dropped_properties_today). Qed.
 Print Assumptions C19_carve_out_is_exactly.
 Check C19_carve_out_is_exactly :
   dropped_properties rule_specs =
-  [("convert_require", "current"); ("convert_require", "target"); ("remove_attribute", "match"); ("remove_comments", "except")].
+  [("convert_require", "current"); ("convert_require", "target")].
 
 Theorem C19_roundtrip_refuted_unreadable :
   forall (valid_glob valid_regex valid_ident : string -> bool) (norm_globals : list string -> list string) (norm_reqmode : json -> option json) (env_json_ok : string -> bool),
@@ -149,34 +149,17 @@ Check C19_roundtrip_refuted_unreadable :
             serialize_rule rule_specs r = JStr "convert_require" /\
             deserialize_rule valid_glob valid_regex valid_ident norm_globals norm_reqmode env_json_ok rule_specs (serialize_rule rule_specs r) = None.
 
-Theorem C19_roundtrip_refuted_dropped :
-  forall (valid_glob valid_regex valid_ident : string -> bool) (norm_globals : list string -> list string) (norm_reqmode : json -> option json) (env_json_ok : string -> bool),
-  valid_regex "^ keep" = true ->
-  exists r r', deserialize_rule valid_glob valid_regex valid_ident norm_globals norm_reqmode env_json_ok rule_specs w_remove_comments = Some r /\
-               deserialize_rule valid_glob valid_regex valid_ident norm_globals norm_reqmode env_json_ok rule_specs (serialize_rule rule_specs r) = Some r' /\
-               r_props r = [("except", PStrList ["^ keep"])] /\ r_props r' = [] /\ ~ rule_equiv r r'.
-Proof. exact (roundtrip_refuted_dropped). Qed.
-Print Assumptions C19_roundtrip_refuted_dropped.
-Check C19_roundtrip_refuted_dropped :
-  forall (valid_glob valid_regex valid_ident : string -> bool) (norm_globals : list string -> list string) (norm_reqmode : json -> option json) (env_json_ok : string -> bool),
-  valid_regex "^ keep" = true ->
-  exists r r', deserialize_rule valid_glob valid_regex valid_ident norm_globals norm_reqmode env_json_ok rule_specs w_remove_comments = Some r /\
-               deserialize_rule valid_glob valid_regex valid_ident norm_globals norm_reqmode env_json_ok rule_specs (serialize_rule rule_specs r) = Some r' /\
-               r_props r = [("except", PStrList ["^ keep"])] /\ r_props r' = [] /\ ~ rule_equiv r r'.
-
 Theorem C19_injective_refuted :
   forall (valid_glob valid_regex valid_ident : string -> bool) (norm_globals : list string -> list string) (norm_reqmode : json -> option json) (env_json_ok : string -> bool),
-  valid_regex "^ keep" = true ->
-  exists r1 r2, deserialize_rule valid_glob valid_regex valid_ident norm_globals norm_reqmode env_json_ok rule_specs w_remove_comments = Some r1 /\
-                deserialize_rule valid_glob valid_regex valid_ident norm_globals norm_reqmode env_json_ok rule_specs (JStr "remove_comments") = Some r2 /\
+  exists r1 r2, deserialize_rule valid_glob valid_regex valid_ident norm_globals norm_reqmode env_json_ok rule_specs w_convert_require = Some r1 /\
+                deserialize_rule valid_glob valid_regex valid_ident norm_globals norm_reqmode env_json_ok rule_specs w_convert_require_luau = Some r2 /\
                 serialize_rule rule_specs r1 = serialize_rule rule_specs r2 /\ ~ rule_equiv r1 r2.
 Proof. exact (injective_refuted). Qed.
 Print Assumptions C19_injective_refuted.
 Check C19_injective_refuted :
   forall (valid_glob valid_regex valid_ident : string -> bool) (norm_globals : list string -> list string) (norm_reqmode : json -> option json) (env_json_ok : string -> bool),
-  valid_regex "^ keep" = true ->
-  exists r1 r2, deserialize_rule valid_glob valid_regex valid_ident norm_globals norm_reqmode env_json_ok rule_specs w_remove_comments = Some r1 /\
-                deserialize_rule valid_glob valid_regex valid_ident norm_globals norm_reqmode env_json_ok rule_specs (JStr "remove_comments") = Some r2 /\
+  exists r1 r2, deserialize_rule valid_glob valid_regex valid_ident norm_globals norm_reqmode env_json_ok rule_specs w_convert_require = Some r1 /\
+                deserialize_rule valid_glob valid_regex valid_ident norm_globals norm_reqmode env_json_ok rule_specs w_convert_require_luau = Some r2 /\
                 serialize_rule rule_specs r1 = serialize_rule rule_specs r2 /\ ~ rule_equiv r1 r2.
 
 Theorem C19_strict_refuted_generator_keys :
